@@ -2,6 +2,10 @@
 
 Proved: drag_coefficient = (kappa/ln(z/z0))^2, roughness_wu positive with its closed form, _charnock_relation_point (capped
 Charnock relation), _roughness_estimate_point returns NaN or exp(.) > 0 on every return path, the stress balance handed to the root finder.
+The root finder numba_newton_raphson is no longer assumed: its exit contract (contracts/newton_common.py, shared with C11; the instance of this call is
+re-verified here, the whole family under C11) is used at the call site: a roughness that comes out of the solver is exp(x) for a result x that left the
+solver through its convergence test (last step < 1e-6 in log z0 from the last evaluation point of the balance), x in [-20, 0] widened by the initial
+bracket g -/+ |g|/2 around g = log(guess) -- in [-20, 0] itself when -40/3 <= g <= 0; ValueError (no convergence / stationary point) only when the solver is reached.
 tools/solvers.py::fixed_point_iteration (numpy input: 1-d array of any length with possibly-NaN cells, any function that maps missing cells
 to missing cells, bounds none / lower / both, default configuration or any field values), by a loop invariant and a counting lemma:
   * left through `break` with fraction_of_points == 1: every cell with a finite guess passes the convergence test against the previous
@@ -81,8 +85,11 @@ charnock_point = Contract(
 )
 
 # ------------------------------------------------------------------ Janssen estimate: NaN or positive
-NEWTON = CalleeContract(B + "solvers.py::numba_newton_raphson", lambda mk, a: mk.real("log_root"), assumed=True,
-                        note="the hybrid Newton solver returns a finite real (or raises); nothing about its value is assumed")
+# the root finder: its exit contract is proved once in contracts/newton_common.py (arbitrary function, guess, bounds, tolerances) and used here at the
+# call site: preconditions are obligations, the exit clauses are assumed for the result, ValueError may escape; every call is recorded (ghost)
+from contracts.newton_common import solver_contract, newton_at_call
+newton_solver = solver_contract(["both,plain"])        # the instance of the call below (finite bounds, no Aitken step); the whole family is verified under C11
+NEWTON = newton_at_call("solver_calls")
 
 
 def _p_estimate(wtype):
@@ -97,12 +104,33 @@ def _p_estimate(wtype):
     return p
 
 
+def _estimate_exit(a, r):
+    """a value that comes out of the solver: z0 = exp(x) for the solver's result x; the solver left through its convergence test (errors are on),
+    so the last step |x - p| in log z0 is below the configured 1e-6 at an evaluation point p; x lies in the search interval [-20, 0] widened by the
+    initial bracket g -/+ |g|/2 around g = log(guess) -- in [-20, 0] itself (hence z0 <= 1, and z0 >= e^-20 by monotonicity of exp: mathematics)
+    whenever -40/3 <= g <= 0, i.e. for a guessed roughness between e^(-40/3) = 1.6e-6 m and 1 m"""
+    calls = a._ghost.get("solver_calls", ())
+    if not calls:
+        return True                       # NaN exits before the solver (missing spectrum values, zero wind)
+    raw, x = calls[-1]
+    g = raw.guess
+    b0, b1 = g - absv(g) * Fraction(1, 2), g + absv(g) * Fraction(1, 2)
+    return And(len(calls) == 1, eq(r, exp(x.result)), x.converged, absv(x.result - x.previous) < Fraction(1, 10 ** 6),
+               absv(x.result - x.previous) / If(absv(x.previous) >= Fraction(1, 10 ** 6), absv(x.previous), Fraction(1, 10 ** 6)) < Fraction(1, 10 ** 6),
+               Or(x.result >= -20, x.result >= b0), Or(x.result <= 0, x.result <= b1),
+               implies(And(g >= Fraction(-40, 3), g <= 0), And(x.result >= -20, x.result <= 0, r <= 1)),
+               implies(x.bracketed, And(x.b_lo < x.b_hi, x.b_lo <= x.result, x.result <= x.b_hi, x.F(x.b_lo) * x.F(x.b_hi) < 0)))
+
+
 estimate_point = Contract(
     B + "stress.py::_roughness_estimate_point",
     instances=[(w, _p_estimate(w)) for w in ("u10", "friction_velocity", "ustar", "other")],
     requires=[("dims", lambda a: And(a.variance_density.shape[0] >= 0, a.variance_density.shape[1] >= 0))],
-    ensures=[("nan_or_positive", lambda a, r: Or(_is_nan(r), False if _is_nan(r) else r > 0))],
-    raises={"ValueError": lambda a: And(a.guess < 0, a.wind[2] not in ("u10", "ustar", "friction_velocity"))},
+    ensures=[("nan_or_positive", lambda a, r: Or(_is_nan(r), False if _is_nan(r) else r > 0)),
+             ("returned_roughness_is_exp_of_a_converged_solver_result_last_step_below_1e-6_in_log_roughness_within_the_search_interval_for_guesses_in_range",
+              lambda a, r: _estimate_exit(a, r))],
+    # the solver may raise (no convergence within 100 iterations, stationary point without a bracket): only when it is reached
+    raises={"ValueError": lambda a: Or(And(a.guess < 0, a.wind[2] not in ("u10", "ustar", "friction_velocity")), a.wind[0] != 0)},
     callees={NEWTON.target: NEWTON},
 )
 
@@ -217,23 +245,22 @@ total_stress = Contract(
 
 
 # the estimate hands exactly this balance to the root finder, on the search interval (e^-20, 1), and returns exp(root)
-def _newton_recording(mk, a):
-    r = mk.real("log_root")
-    mk.st.ghost["solver_call"] = (a, r)
-    return r
-
-
-NEWTON_REC = CalleeContract(B + "solvers.py::numba_newton_raphson", _newton_recording, assumed=True,
-                            note="the hybrid Newton solver returns a finite real (or raises); nothing about its value is assumed; its arguments are recorded")
-
-
 def _estimate_wiring(a, r):
-    if "solver_call" not in a._ghost:
+    if "solver_calls" not in a._ghost:
         return True                       # NaN exits before the solver (missing spectrum values, zero wind)
-    ca, root = a._ghost["solver_call"]
+    ca, x = a._ghost["solver_calls"][-1]
+    root = x.result
     fa = ca.function_arguments
     raw = a._raw
-    return And(getattr(ca.function, "qualname", "") == "_stress_iteration_function", _same(fa[0], raw["variance_density"]),
+    par = a.parameters
+    if a.wind[2] == "u10":                # first guess when none is given: the roughness of Wu's drag law / the (capped) Charnock relation
+        own = 10 / exp(par["vonkarman_constant"] / sqrt((Fraction(8, 10) + Fraction(65, 1000) * a.wind[0]) / 1000))
+    else:
+        own = _minv(a.wind[0] * a.wind[0] / par["gravitational_acceleration"] * par["charnock_constant"], par["charnock_maximum_roughness"])
+    return And(len(a._ghost["solver_calls"]) == 1, eq(ca.guess, log(If(a.guess < 0, own, a.guess))),
+               ca.atol == _T.from_float(1e-6), ca.rtol == _T.from_float(1e-6), ca.error_on_max_iter is True, ca.max_iterations == 100,
+               ca.aitken_acceleration is False,
+               getattr(ca.function, "qualname", "") == "_stress_iteration_function", _same(fa[0], raw["variance_density"]),
                eq(fa[1][0], a.wind[0]), eq(fa[1][1], a.wind[1]), fa[1][2] == a.wind[2], eq(fa[2], a.depth), fa[3] is raw["wind_source_term_function"],
                fa[4] is raw["tail_stress_parametrization_function"], _same(fa[5], raw["spectral_grid"]), _same(fa[6], raw["parameters"]),
                ca.hard_bounds[0] == -20, ca.hard_bounds[1] == 0, eq(r, exp(root)))
@@ -243,9 +270,9 @@ estimate_wiring = Contract(
     B + "stress.py::_roughness_estimate_point",
     instances=[(w, _p_estimate(w)) for w in ("u10", "friction_velocity")],
     requires=[("dims", lambda a: And(a.variance_density.shape[0] >= 0, a.variance_density.shape[1] >= 0))],
-    ensures=[("solver_is_given_the_stress_balance_of_this_spectrum_and_wind_on_the_search_interval_and_exp_of_its_root_is_returned", _estimate_wiring)],
-    raises={"ValueError": lambda a: False},
-    callees={NEWTON_REC.target: NEWTON_REC},
+    ensures=[("solver_is_given_the_stress_balance_of_this_spectrum_and_wind_on_the_search_interval_from_the_log_of_the_guess_and_exp_of_its_root_is_returned", _estimate_wiring)],
+    raises={"ValueError": lambda a: a.wind[0] != 0},          # only from the solver (no convergence / stationary point), hence only when it is reached
+    callees={NEWTON.target: NEWTON},
     label="_roughness_estimate_point.wiring",
 )
 
@@ -910,8 +937,11 @@ def _bounded_janssen(tier, seed):
 
 BOUNDED = [Bounded("janssen.stress_balance.compiled", _bounded_janssen, "NaN-or-positive and closure of the stress balance at the returned roughness"),
            Bounded("charnock.implicit_equation", _bounded_charnock, "residual of the implicit Charnock equation at the returned roughness; NaN handling; monotonicity")]
-CONTRACTS = [drag, wu, charnock_point, estimate_point, stress_balance, total_stress, estimate_wiring, fixed_point, charnock_relation, charnock_from_u10]
-TRUSTED = ["A-table: exp(x) > 0; sqrt(x) > 0 for x > 0; log is an uninterpreted function (formula contracts are syntactic in log)",
+CONTRACTS = [drag, wu, charnock_point, newton_solver, estimate_point, stress_balance, total_stress, estimate_wiring, fixed_point, charnock_relation, charnock_from_u10]
+TRUSTED = ["A-table: exp(x) > 0; exp(x) <= 1 for x <= 0; sqrt(x) > 0 for x > 0; log is an uninterpreted function (formula contracts are syntactic in log); that e^-20 <= exp(x) "
+           "for x >= -20 (monotonicity of exp) is mathematics outside the contract: the clause is stated for x = log z0",
+           "numba_newton_raphson: the function handed to it is a deterministic, total, real-valued function of its first argument (NaN stress values are outside the model); "
+           "a division by zero is an unspecified real (numba raises ZeroDivisionError, which _roughness_estimate's bare except turns into NaN)",
            "np.nan is an opaque non-real value in the model of the scalar contracts; the solver / Charnock contracts use possibly-NaN cells (value + missing flag, IEEE propagation, "
            "comparisons with NaN false); infinities are not modelled (standing assumption: every real other than the literal np.inf is finite; the solver contract's precondition "
            "`guess_cells_are_finite_or_missing` is therefore trivially true symbolically and a real precondition of the executable twin)",
@@ -919,5 +949,6 @@ TRUSTED = ["A-table: exp(x) > 0; sqrt(x) > 0 for x > 0; log is an uninterpreted 
            "an arbitrary argument array); arrays must be non-empty (np.nanmax of an empty array raises ValueError in the first iteration)",
            "Sum lemma schema `monotone` (pyvc/terms.py, contract option sum_monotone): pointwise ordered terms give ordered sums, strictly if strict at one index of the range",
            "logging calls and the f-string log messages have no modelled effect"]
-EXPLANATION = ("formula fragments, the NaN-or-positive exit contract of the Janssen estimate, the stress balance wiring, the exit contract of the fixed-point solver (numpy input) and its use by "
+EXPLANATION = ("formula fragments, the NaN-or-positive exit contract of the Janssen estimate with the proved exit contract of the hybrid Newton solver at its call site (converged exit, last step "
+               "< 1e-6 in log z0, search interval), the stress balance wiring, the exit contract of the fixed-point solver (numpy input) and its use by "
                "charnock_roughness_length_from_u10 are proved; convergence of the iterations, the residual at the returned roughness and DataArray / scalar inputs are bounded checks on the real functions")
